@@ -837,18 +837,18 @@ Fixpoint index_pair (a b : Z) (s : str) : option nat :=
   | _ => None
   end.
 
-Definition is_digit (c : Z) : bool := (48 <=? c) && (c <=? 57).
+Definition is_dec_digit (c : Z) : bool := (48 <=? c) && (c <=? 57).
 Definition is_octal (c : Z) : bool := (48 <=? c) && (c <=? 55).
-Definition isalnum (c : Z) : bool := is_digit c || ((65 <=? c) && (c <=? 90)) || ((97 <=? c) && (c <=? 122)).
+Definition isalnum (c : Z) : bool := is_dec_digit c || ((65 <=? c) && (c <=? 90)) || ((97 <=? c) && (c <=? 122)).
 Definition unhex (c : Z) : Z :=
-  if is_digit c then c - 48
+  if is_dec_digit c then c - 48
   else if (97 <=? c) && (c <=? 102) then c - 87
   else if (65 <=? c) && (c <=? 70) then c - 55
   else -1.
 
 Fixpoint span_digits (s : str) : str * str :=
   match s with
-  | c :: t => if is_digit c then let '(d, r) := span_digits t in (c :: d, r) else ([], s)
+  | c :: t => if is_dec_digit c then let '(d, r) := span_digits t in (c :: d, r) else ([], s)
   | [] => ([], [])
   end.
 
@@ -860,8 +860,8 @@ Definition int_value (ds : str) : Z :=
 Definition parse_int (s : str) : option (Z * str) :=
   match s with
   | c :: t =>
-    if negb (is_digit c) then None
-    else if (c =? 48) && match t with d :: _ => is_digit d | [] => false end then None
+    if negb (is_dec_digit c) then None
+    else if (c =? 48) && match t with d :: _ => is_dec_digit d | [] => false end then None
     else let '(ds, rest) := span_digits s in Some (int_value ds, rest)
   | [] => None
   end.
